@@ -16,6 +16,12 @@ REPO = os.environ.get("VERIF_REPO", "/repo")
 SPEC = os.path.join(VERIF, "spec")
 HARNESS = os.path.join(VERIF, "harness")
 OUT = os.path.join(VERIF, "out")
+EVID = os.path.join(VERIF, "evidence")
+if os.path.abspath(REPO) != "/repo":
+    # trying a change out on a scratch copy of the repository: keep /verif/out and /verif/evidence of
+    # the real tree untouched
+    OUT = os.path.join(VERIF, "out", "scratch-" + hashlib.md5(os.path.abspath(REPO).encode()).hexdigest()[:8])
+    EVID = os.path.join(OUT, "evidence")
 TLAJAR = "/opt/veriftools/tla/tla2tools.jar:/opt/veriftools/tla/CommunityModules-deps.jar"
 NCPU = os.cpu_count() or 4
 
@@ -76,7 +82,7 @@ class Ctx:
                 return False
         if len(self.violations) < 50:
             self.replay_n += 1
-            rdir = os.path.join(VERIF, "out", "replays", "%s-%s-%d" % (self.prop, self.tier, self.replay_n))
+            rdir = os.path.join(OUT, "replays", "%s-%s-%d" % (self.prop, self.tier, self.replay_n))
             shutil.rmtree(rdir, ignore_errors=True)
             os.makedirs(rdir)
             with open(os.path.join(rdir, "violation.json"), "w") as f:
@@ -100,8 +106,8 @@ class Ctx:
                   coverage=cov, assumptions=self.assumptions, wall_s=round(wall, 1),
                   violations=len(self.violations),
                   known_findings=[k["id"] for k in self.known_hits])
-        os.makedirs(os.path.join(VERIF, "evidence"), exist_ok=True)
-        with open(os.path.join(VERIF, "evidence", self.prop + ".json"), "w") as f:
+        os.makedirs(EVID, exist_ok=True)
+        with open(os.path.join(EVID, self.prop + ".json"), "w") as f:
             json.dump(ev, f, indent=1, default=str)
         for k in self.known_hits:
             print("KNOWN-FINDING: property=%s %s [%s, %d occurrence(s), e.g. %s]" %
@@ -322,17 +328,26 @@ _harness_ready = False
 
 
 def ensure_harness():
-    """go.sum must be /repo's (module replace => /repo)."""
-    global _harness_ready
+    """go.sum must be the repository's (module replace => /repo).  With VERIF_REPO pointing at a
+    scratch copy of the repository (used only to try changes out without touching /repo) the
+    harness is mirrored next to it with its replace directive rewritten."""
+    global _harness_ready, HARNESS
     if _harness_ready:
         return
-    src = os.path.join(REPO, "go.sum")
-    dst = os.path.join(HARNESS, "go.sum")
     try:
+        if os.path.abspath(REPO) != "/repo":
+            mirror = os.path.abspath(REPO).rstrip("/") + "-harness"
+            shutil.rmtree(mirror, ignore_errors=True)
+            shutil.copytree(os.path.join(VERIF, "harness"), mirror)
+            gm = open(os.path.join(mirror, "go.mod")).read().replace("=> /repo", "=> " + os.path.abspath(REPO))
+            open(os.path.join(mirror, "go.mod"), "w").write(gm)
+            HARNESS = mirror
+        src = os.path.join(REPO, "go.sum")
+        dst = os.path.join(HARNESS, "go.sum")
         if not os.path.exists(dst) or open(src).read() != open(dst).read():
             shutil.copyfile(src, dst)
     except OSError as e:
-        raise Machinery("cannot prepare harness go.sum: %s" % e)
+        raise Machinery("cannot prepare harness: %s" % e)
     _harness_ready = True
 
 
